@@ -96,10 +96,17 @@ pub fn eval_f(e: &E, env: &HashMap<String, f64>) -> f64 {
 }
 
 macro_rules! eval_impl {
-    ($name:ident, $ty:ty) => {
+    ($name:ident, $inner:ident, $ty:ty) => {
+        /// Every variable is ONE object, created once and used (cloned: the variable list is shared, as in user code
+        /// `let x = Dual::new(..); &x * &x`) wherever the expression mentions it.
         pub fn $name(e: &E, env: &HashMap<String, f64>) -> $ty {
+            let vars: HashMap<String, $ty> = env.iter().map(|(k, v)| (k.clone(), <$ty>::new(*v, vec![k.clone()]))).collect();
+            $inner(e, &vars)
+        }
+        fn $inner(e: &E, env: &HashMap<String, $ty>) -> $ty {
+            let $name = $inner;
             match e {
-                E::Var(v) => <$ty>::new(env[v], vec![v.clone()]),
+                E::Var(v) => env[v].clone(),
                 E::Cst(c) => <$ty>::new(*c, vec![]),
                 E::Bin(o, a, b) => {
                     let (x, y) = ($name(a, env), $name(b, env));
@@ -126,8 +133,8 @@ macro_rules! eval_impl {
         }
     };
 }
-eval_impl!(eval_d1, Dual);
-eval_impl!(eval_d2, Dual2);
+eval_impl!(eval_d1, eval_d1_in, Dual);
+eval_impl!(eval_d2, eval_d2_in, Dual2);
 
 fn read_env(r: &mut Rd) -> (Vec<String>, HashMap<String, f64>) {
     let n = r.next() as usize;
